@@ -282,15 +282,15 @@ def check(P, rep):
         rep.floor('gateway entry is_message_executed', 0, 1)
     storage_classes(P, rep, 'C02.R5', CN, {'MessageApproval': 'persistent'})
     # R5 type table
-    k = c.adts.get('storage_types::MessageApprovalKey')
+    k = adt_of(c, 'MessageApprovalKey')
     okk = k is not None and [(f['name'], f['ty']) for f in k['variants'][0]['fields']] == \
         [('source_chain', 'soroban_sdk::String'), ('message_id', 'soroban_sdk::String')]
     rep.check(okk, 'C02.R5', 'key-type', 'MessageApprovalKey = {source_chain: String, message_id: String} (two separate fields)', CN,
               json_short(k))
-    m = c.adts.get('types::Message')
+    m = adt_of(c, 'Message')
     okm = m is not None and [f['name'] for f in m['variants'][0]['fields']] == ['source_chain', 'message_id', 'source_address', 'contract_address', 'payload_hash']
     rep.check(okm, 'C02.R5', 'message-type', 'Message has the five fields', CN, json_short(m))
-    v = c.adts.get('storage_types::MessageApprovalValue')
+    v = adt_of(c, 'MessageApprovalValue')
     okv = v is not None and [x['name'] for x in v['variants']] == ['NotApproved', 'Approved', 'Executed']
     rep.check(okv, 'C02.R5', 'status-type', 'status enum is NotApproved | Approved(hash) | Executed', CN, json_short(v))
 
